@@ -4,7 +4,7 @@
    through array elements, tuple positions and object keys succeeds.  Together: a wrong arity anywhere in
    the input tree makes ParseExternalData / EncodeABIDataValues / EncodeCallDataValues fail. *)
 From Coq Require Import List NArith ZArith Bool Arith Lia.
-From FFS Require Import Base.Res Base.Bytes Abi.ModelTypes Abi.EncModel Abi.InputModel Abi.InputProofs.
+From FFS Require Import Base.Res Base.Bytes Abi.Types Abi.Spec Abi.ModelTypes Abi.EncModel Abi.InputModel Abi.InputProofs.
 Import ListNotations.
 
 (* one step from a (component, input) pair to a pair the walk visits below it *)
@@ -141,3 +141,143 @@ Proof.
 Qed.
 
 End Nested.
+
+(* ------------------------------------------------------------------------------------------------
+   An out-of-range integer INPUT anywhere below the parameter list: no data is returned.
+   (Theorem 5b of Properties/C02.v is about value trees; this connects it to the external input:
+   the value the walk builds for a visited pair sits in the tree the walk builds for the whole.)
+   ------------------------------------------------------------------------------------------------ *)
+
+Lemma sub_trans a b c : sub a b -> sub b c -> sub a c.
+Proof.
+  intros Hab Hbc. induction Hbc as [b|b c0 tc l v C I _ IH]; [exact Hab|].
+  eapply sub_child; [exact C|exact I|exact (IH Hab)].
+Qed.
+
+Section NestedValues.
+Variable bifs : bytes -> res Z.
+
+Lemma go_array_in child l cs :
+  (fix go (l : list ext) : res (list cval) :=
+     match l with
+     | [] => Ok []
+     | v :: r => do c <- walkInput bifs child v; do cs <- go r; Ok (c :: cs)
+     end) l = Ok cs ->
+  forall i x', nth_error l i = Some x' -> exists c, walkInput bifs child x' = Ok c /\ In c cs.
+Proof.
+  revert cs. induction l as [|v r IH]; intros cs H i x' N; [destruct i; discriminate|].
+  destruct (walkInput bifs child v) as [c0| |] eqn:W; cbn [bind] in H; try discriminate.
+  match type of H with (do cs <- ?G; _) = _ => destruct G as [l0| |] eqn:E end; cbn [bind] in H; try discriminate.
+  injection H as <-.
+  destruct i as [|i]; cbn [nth_error] in N.
+  - injection N as <-. exists c0. split; [exact W|left; reflexivity].
+  - destruct (IH l0 eq_refl i x' N) as (c & Hc & I). exists c. split; [exact Hc|right; exact I].
+Qed.
+
+Lemma go_tuple_pos_in ts : forall l cs,
+  (fix go (ts : list tcomp) (l : list ext) {struct ts} : res (list cval) :=
+     match ts, l with
+     | t :: ts', v :: r => do c <- walkInput bifs t v; do cs <- go ts' r; Ok (c :: cs)
+     | _, _ => Ok []
+     end) ts l = Ok cs ->
+  forall i t x', nth_error ts i = Some t -> nth_error l i = Some x' -> exists c, walkInput bifs t x' = Ok c /\ In c cs.
+Proof.
+  induction ts as [|t0 r IH]; intros l cs H i t x' Nt Nl; [destruct i; discriminate|].
+  destruct l as [|v l]; [destruct i; discriminate|].
+  destruct (walkInput bifs t0 v) as [c0| |] eqn:W; cbn [bind] in H; try discriminate.
+  match type of H with (do cs <- ?G; _) = _ => destruct G as [l0| |] eqn:E end; cbn [bind] in H; try discriminate.
+  injection H as <-.
+  destruct i as [|i]; cbn [nth_error] in Nt, Nl.
+  - injection Nt as <-. injection Nl as <-. exists c0. split; [exact W|left; reflexivity].
+  - destruct (IH l l0 E i t x' Nt Nl) as (c & Hc & I). exists c. split; [exact Hc|right; exact I].
+Qed.
+
+Lemma go_tuple_key_in m ts : forall j cs,
+  (fix go (ts : list tcomp) (i : nat) {struct ts} : res (list cval) :=
+     match ts with
+     | [] => Ok []
+     | t :: ts' =>
+         let keyName := match tc_key t with [] => itoa i | k :: l => k :: l end in
+         match lookup keyName m with
+         | None => Err EMissingKey
+         | Some v => do c <- walkInput bifs t v; do cs <- go ts' (S i); Ok (c :: cs)
+         end
+     end) ts j = Ok cs ->
+  forall i t x', nth_error ts i = Some t -> lookup (effective_key t (j + i)) m = Some x' ->
+  exists c, walkInput bifs t x' = Ok c /\ In c cs.
+Proof.
+  induction ts as [|t0 r IH]; intros j cs H i t x' Nt L; [destruct i; discriminate|].
+  cbv zeta in H. destruct i as [|i]; cbn [nth_error] in Nt.
+  - injection Nt as <-. rewrite Nat.add_0_r in L. unfold effective_key in L. rewrite L in H.
+    destruct (walkInput bifs t0 x') as [c0| |] eqn:W; cbn [bind] in H; try discriminate.
+    match type of H with (do cs <- ?G; _) = _ => destruct G as [l0| |] eqn:E end; cbn [bind] in H; try discriminate.
+    injection H as <-. exists c0. split; [reflexivity|left; reflexivity].
+  - destruct (lookup _ m) as [v|]; [|discriminate].
+    destruct (walkInput bifs t0 v) as [c0| |]; cbn [bind] in H; try discriminate.
+    match type of H with (do cs <- ?G; _) = _ => destruct G as [l0| |] eqn:E end; cbn [bind] in H; try discriminate.
+    injection H as <-.
+    assert (L' : lookup (effective_key t (S j + i)) m = Some x') by (replace (S j + i)%nat with (j + S i)%nat by lia; exact L).
+    destruct (IH (S j) l0 E i t x' Nt L') as (c & Hc & I). exists c. split; [exact Hc|right; exact I].
+Qed.
+
+Lemma walk_sub_step tc x tc' x' : step_in tc x tc' x' ->
+  forall cv, walkInput bifs tc x = Ok cv -> exists cv', walkInput bifs tc' x' = Ok cv' /\ sub cv' cv.
+Proof.
+  intros S cv H. destruct S as [len c k x l i x' S N | c k x l i x' S N | ts k x l i t x' S Nt Nl | ts k m i t x' Nt L];
+    cbn [walkInput] in H.
+  - rewrite S in H. destruct (negb _); [discriminate|].
+    match type of H with (do cs <- ?G; _) = _ => destruct G as [l0| |] eqn:E end; cbn [bind] in H; try discriminate.
+    injection H as <-. destruct (go_array_in c l l0 E i x' N) as (c' & Hc & I). exists c'. split; [exact Hc|].
+    eapply sub_child; [reflexivity|exact I|apply sub_refl].
+  - rewrite S in H.
+    match type of H with (do cs <- ?G; _) = _ => destruct G as [l0| |] eqn:E end; cbn [bind] in H; try discriminate.
+    injection H as <-. destruct (go_array_in c l l0 E i x' N) as (c' & Hc & I). exists c'. split; [exact Hc|].
+    eapply sub_child; [reflexivity|exact I|apply sub_refl].
+  - rewrite S in H. destruct (negb _); [discriminate|].
+    match type of H with (do cs <- ?G; _) = _ => destruct G as [l0| |] eqn:E end; cbn [bind] in H; try discriminate.
+    injection H as <-. destruct (go_tuple_pos_in ts l l0 E i t x' Nt Nl) as (c' & Hc & I). exists c'. split; [exact Hc|].
+    eapply sub_child; [reflexivity|exact I|apply sub_refl].
+  - cbn [as_slice] in H.
+    match type of H with (do cs <- ?G; _) = _ => destruct G as [l0| |] eqn:E end; cbn [bind] in H; try discriminate.
+    injection H as <-. destruct (go_tuple_key_in m ts 0%nat l0 E i t x' Nt L) as (c' & Hc & I). exists c'. split; [exact Hc|].
+    eapply sub_child; [reflexivity|exact I|apply sub_refl].
+Qed.
+
+Theorem walk_sub_below tc x tc' x' : below tc x tc' x' ->
+  forall cv, walkInput bifs tc x = Ok cv -> exists cv', walkInput bifs tc' x' = Ok cv' /\ sub cv' cv.
+Proof.
+  induction 1 as [tc x | tc x tc1 x1 tc2 x2 S _ IH]; intros cv H; [exists cv; split; [exact H|apply sub_refl]|].
+  destruct (walk_sub_step _ _ _ _ S cv H) as (cv1 & H1 & S1). destruct (IH cv1 H1) as (cv2 & H2 & S2).
+  exists cv2. split; [exact H2|exact (sub_trans _ _ _ S2 S1)].
+Qed.
+
+(* the integer read from an input that sits anywhere below the parameter list, at a uint<M>/int<M>
+   component, is out of range: EncodeABIDataValues / EncodeCallDataValues return no data *)
+Theorem nested_out_of_range_input_rejected params input e s m k x z :
+  (e = EInt \/ e = EUInt) -> tc_wf (int_tc e s m k) = true ->
+  below (root_of params) input (int_tc e s m k) x -> int_read bifs x z -> ~ in_range e m z ->
+  (forall r, EncodeABIDataValues bifs params input <> Ok r) /\
+  (forall sel r, EncodeCallDataValues bifs sel params input <> Ok r).
+Proof.
+  intros He W B R NR.
+  assert (K : forall cv, walkInput bifs (root_of params) input = Ok cv -> forall r, encodeABIData cv <> Ok r).
+  { intros cv Hw. destruct (walk_sub_below _ _ _ _ B cv Hw) as (cv' & Hl & S).
+    assert (RD : reader_of e = RdInteger) by (destruct He as [-> | ->]; reflexivity).
+    assert (G : getIntegerFromInterface bifs x = Ok (GBigInt z)).
+    { unfold getIntegerFromInterface.
+      destruct x as [| t | t | b | [z'|] | [m0 e0 p|sg] | [m0 e0|sg|] | [m0 e0|sg|] | kk z' | b | l | m0 |]; cbn [int_read] in R; try contradiction;
+        try (rewrite R; reflexivity); subst; reflexivity. }
+    unfold int_tc in Hl. cbn [walkInput] in Hl. rewrite RD in Hl. cbn [read_external] in Hl. rewrite G in Hl. cbn [bind] in Hl.
+    injection Hl as <-. exact (out_of_range_leaf_rejected e s m k [] z cv He W NR S). }
+  split.
+  - intros r H. unfold EncodeABIDataValues in H.
+    destruct (walkInput bifs (root_of params) input) as [cv| |] eqn:Hw; cbn [bind] in H; try discriminate.
+    unfold EncodeABIData in H. destruct (encodeABIData cv) as [r0| |] eqn:E; cbn [bind] in H; try discriminate.
+    exact (K cv eq_refl r0 E).
+  - intros sel r H. unfold EncodeCallDataValues in H.
+    destruct (walkInput bifs (root_of params) input) as [cv| |] eqn:Hw; cbn [bind] in H; try discriminate.
+    unfold EncodeABIData in H. destruct (encodeABIData cv) as [r0| |] eqn:E; cbn [bind] in H; try discriminate.
+    exact (K cv eq_refl r0 E).
+Qed.
+
+End NestedValues.
